@@ -21,4 +21,4 @@ MANIFEST = {
 
 def run(ctx):
     ctx.gen_lean()          # Tie A: regenerate lean/UvModel/Generated from /repo; GenEq ties HandleKernels to it
-    loopsim.drive(ctx, "C03", ["UvModel.Props.C03", "UvModel.GenEq"], ["C03", "C03", "C03", "C02"], 260, 6000)
+    loopsim.drive(ctx, "C03", ["UvModel.Props.C03", "UvModel.GenEq"], ["C03", "C03", "C03", "C02"], 900, 12000)
